@@ -27,6 +27,14 @@ class ContinueSig(Exception):
     pass
 
 
+class Poison:
+    """value of a local variable after merging two paths on which it is undefined / of different kinds"""
+
+    def __init__(self, name, site=None):
+        self.name = name
+        self.site = site
+
+
 class GenVal:
     """un-started generator: function + bound frame; run eagerly on demand."""
 
@@ -65,6 +73,31 @@ def _simple_body(stmts):
             return False
         return False
     return True
+
+
+_NORMALIZED = {}
+
+
+def _continue_guards(body):
+    """loop-body normal form: `if C: continue` followed by REST is `if not C: REST` (same control flow; lets the two outcomes
+    be merged instead of forked)"""
+    key = id(body[0]) if body else None
+    if key in _NORMALIZED:
+        return _NORMALIZED[key][1]
+    out = list(body)
+    for i, st in enumerate(body):
+        if (isinstance(st, ast.If) and not st.orelse and len(st.body) == 1 and isinstance(st.body[0], ast.Continue) and i + 1 < len(body)
+                and not any(isinstance(x, (ast.Continue, ast.Break, ast.Return, ast.Yield, ast.YieldFrom))
+                            for r in body[i + 1:] for x in ast.walk(r) if not (isinstance(r, ast.If) and False))):
+            rest = _continue_guards(body[i + 1:])
+            new_if = ast.If(test=ast.UnaryOp(op=ast.Not(), operand=st.test), body=rest, orelse=[])
+            ast.copy_location(new_if, st)
+            ast.fix_missing_locations(new_if)
+            out = list(body[:i]) + [new_if]
+            break
+    if key is not None:
+        _NORMALIZED[key] = (body, out)       # keeps `body` alive so that the id stays valid
+    return out
 
 
 def _has_yield(node):
@@ -215,6 +248,19 @@ class Interp:
         for s in stmts:
             self.exec_stmt(s, fr)
 
+    def _site(self, node):
+        """identity of a merge site: the statement and the concrete iterations of the loops around it (the same `if` of a loop
+        over a literal table is a different site in every iteration)"""
+        return (id(node), tuple(getattr(self, 'loop_iters', ())))
+
+    def exec_loop_body(self, body, fr):
+        """one iteration of a loop body under a loop rule: `continue` ends the step like falling off the end of the body
+        (`break` propagates to the rule)"""
+        try:
+            self.exec_block(body, fr)
+        except ContinueSig:
+            pass
+
     def exec_stmt(self, s, fr):
         m = getattr(self, 'st_' + type(s).__name__, None)
         if m is None:
@@ -227,6 +273,13 @@ class Interp:
             g = set()
             fr.vars['$globals'] = g
         g.update(s.names)
+
+    def st_Nonlocal(self, s, fr):
+        nl = fr.vars.get('$nonlocals')
+        if nl is None:
+            nl = set()
+            fr.vars['$nonlocals'] = nl
+        nl.update(s.names)
 
     def st_Pass(self, s, fr):
         pass
@@ -352,13 +405,18 @@ class Interp:
             return self.exec_block(s.body, fr)
         if z3.is_false(t):
             return self.exec_block(s.orelse, fr)
-        if (id(s) not in self.explorer.nomerge_sites and _simple_body(s.body) and _simple_body(s.orelse)
+        if (self._site(s) not in self.explorer.nomerge_sites and _simple_body(s.body) and _simple_body(s.orelse)
                 and self.policy.merge_if(self, s)):
             try:
-                self._merged(t, lambda: self.exec_block(s.body, fr), lambda: self.exec_block(s.orelse, fr))
+                saved_site = getattr(self, '_merge_site', None)
+                self._merge_site = self._site(s)
+                try:
+                    self._merged(t, lambda: self.exec_block(s.body, fr), lambda: self.exec_block(s.orelse, fr))
+                finally:
+                    self._merge_site = saved_site
                 return
             except MergeFail:
-                self.explorer.nomerge_sites.add(id(s))
+                self.explorer.nomerge_sites.add(self._site(s))
                 raise paths.Restart()
         if self.ctx.branch(t):
             self.exec_block(s.body, fr)
@@ -439,6 +497,21 @@ class Interp:
             else:
                 v = merge(c, va, vb)
             return (True if z3.is_true(g) else g, v)
+        if isinstance(obj, Frame) and isinstance(key, str) and not key.startswith('$') and getattr(self, 'loop_iters', ()):
+            # inside a loop over a literal table: a local variable that is undefined, or of another kind, on one of the two
+            # paths (the temporary of the previous iteration is the common case) is merged into a value that must not be read;
+            # a read makes the site a fork again
+            site = getattr(self, '_merge_site', None)
+            if isinstance(a, Poison) or isinstance(b, Poison):
+                return a if isinstance(a, Poison) else b
+            if a is MISSING or b is MISSING:
+                return Poison(key, site)
+            try:
+                return merge(c, a, b)
+            except MergeFail:
+                if site is None:
+                    raise
+                return Poison(key, site)
         if a is MISSING or b is MISSING:
             raise MergeFail('variable defined on one side only')
         return merge(c, a, b)
@@ -457,6 +530,8 @@ class Interp:
             hook = getattr(self, 'symloop_hook', None)
             if hook is not None and hook(self, s, fr, it):
                 return
+            if self._for_as_comprehension(s, fr, it):
+                return
             return self._for_symlist_havoc(s, fr, it)
         if isinstance(it, PList) and not it.is_concrete():
             # guarded list: an item takes part in the loop iff its guard holds (forked per item)
@@ -467,17 +542,66 @@ class Interp:
         else:
             items = self.iterate(it, s)
         broke = False
-        for v in items:
-            self.assign(s.target, v, fr)
-            try:
-                self.exec_block(s.body, fr)
-            except BreakSig:
-                broke = True
-                break
-            except ContinueSig:
-                continue
+        outer = tuple(getattr(self, 'loop_iters', ()))
+        try:
+            for k_, v in enumerate(items):
+                self.loop_iters = outer + ((id(s), k_),)
+                self.assign(s.target, v, fr)
+                try:
+                    self.exec_block(_continue_guards(s.body), fr)
+                except BreakSig:
+                    broke = True
+                    break
+                except ContinueSig:
+                    continue
+        finally:
+            self.loop_iters = outer
         if not broke:
             self.exec_block(s.orelse, fr)
+
+    def _for_as_comprehension(self, s, fr, lst):
+        """loop normal form: `for T in S: [if C:] A.append(E)` / `A.extend(E)` / `if not C: continue; A.append(E)` with A an
+        empty local list is the comprehension `A = [E for T in S if C]` (resp. its flattening) - evaluated as such, so a
+        filter loop and the comprehension it was unrolled from get the same value."""
+        if s.orelse or not isinstance(s.target, ast.Name):
+            return False
+        body = list(s.body)
+        conds = []
+        while len(body) >= 2 and isinstance(body[0], ast.If) and not body[0].orelse and len(body[0].body) == 1 \
+                and isinstance(body[0].body[0], ast.Continue):
+            conds.append(ast.UnaryOp(op=ast.Not(), operand=body[0].test))
+            body = body[1:]
+        while len(body) == 1 and isinstance(body[0], ast.If) and not body[0].orelse:
+            conds.append(body[0].test)
+            body = list(body[0].body)
+        if len(body) != 1 or not isinstance(body[0], ast.Expr) or not isinstance(body[0].value, ast.Call):
+            return False
+        call = body[0].value
+        if not (isinstance(call.func, ast.Attribute) and call.func.attr in ('append', 'extend') and isinstance(call.func.value, ast.Name)
+                and len(call.args) == 1 and not call.keywords):
+            return False
+        acc_name = call.func.value.id
+        if acc_name == s.target.id or fr._loc_get(acc_name) is MISSING:
+            return False
+        acc = fr._loc_get(acc_name)
+        if not (isinstance(acc, PList) and acc.is_concrete() and not acc.values()):
+            return False
+        # the accumulator must not occur in the condition or the element (then the loop is not a map/filter)
+        for node in conds + [call.args[0]]:
+            for x in ast.walk(node):
+                if isinstance(x, ast.Name) and x.id == acc_name:
+                    return False
+        comp = ast.ListComp(elt=call.args[0], generators=[ast.comprehension(target=s.target, iter=s.iter, ifs=conds, is_async=0)])
+        ast.copy_location(comp, s)
+        ast.fix_missing_locations(comp)
+        r = self._comp(comp, fr, 'list')
+        if call.func.attr == 'extend':
+            if not isinstance(r, SymList):
+                return False
+            from .libstubs import flatten_symlist
+            r = flatten_symlist(self, r)
+        fr.set(acc_name, r)
+        return True
 
     def _for_symlist_havoc(self, s, fr, lst):
         """loop over a list of symbolic length without a supplied invariant: *typed havoc* summary.
@@ -665,7 +789,14 @@ class Interp:
                 if WRITTEN_GLOBALS and not LOADING[0] and '$module' in f.vars and (f.vars['$module'].name, name) in WRITTEN_GLOBALS:
                     nm = '%s.%s' % (f.vars['$module'].name, name)
                     GLOBAL_READS[nm] = GLOBAL_READS.get(nm, 0) + 1
-                return f.vars[name]
+                v = f.vars[name]
+                if isinstance(v, Poison):
+                    # the variable is live after all: the two paths that were merged at that site have to be explored apart
+                    if v.site is None or v.site in self.explorer.nomerge_sites:
+                        raise Unsupported('read of the local %r, which is undefined or of another kind on one of two merged paths' % name)
+                    self.explorer.nomerge_sites.add(v.site)
+                    raise paths.Restart()
+                return v
             f = f.parent
         if name in self.builtins:
             return self.builtins[name]
@@ -802,14 +933,14 @@ class Interp:
         def keep():
             return v
         try:
-            if id(n) in self.explorer.nomerge_sites:
+            if self._site(n) in self.explorer.nomerge_sites:
                 raise MergeFail()
             r = self._merged(cond_rest, rest, keep, want_values=True)
             return r
         except MergeFail:
-            if id(n) not in self.explorer.nomerge_sites:
+            if self._site(n) not in self.explorer.nomerge_sites:
                 # result only used for truthiness in most places: retry as bools
-                self.explorer.nomerge_sites.add(id(n))
+                self.explorer.nomerge_sites.add(self._site(n))
                 raise paths.Restart()
             if self.ctx.branch(cond_rest):
                 return rest()
@@ -824,12 +955,12 @@ class Interp:
             return self.eval(n.body, fr)
         if z3.is_false(t):
             return self.eval(n.orelse, fr)
-        if id(n) not in self.explorer.nomerge_sites:
+        if self._site(n) not in self.explorer.nomerge_sites:
             try:
                 return self._merged(t, lambda: self.eval(n.body, fr), lambda: self.eval(n.orelse, fr),
                                     want_values=True)
             except MergeFail:
-                self.explorer.nomerge_sites.add(id(n))
+                self.explorer.nomerge_sites.add(self._site(n))
                 raise paths.Restart()
         if self.ctx.branch(t):
             return self.eval(n.body, fr)
@@ -925,6 +1056,30 @@ class Interp:
         return self._comp(n, fr, 'list')
 
     def _comp(self, n, fr, kind):
+        if len(n.generators) == 2 and kind == 'list':
+            g1, g2 = n.generators
+            flat = (not g1.ifs and not g2.ifs and isinstance(g1.target, ast.Name) and isinstance(g2.target, ast.Name)
+                    and isinstance(g2.iter, ast.Name) and g2.iter.id == g1.target.id and isinstance(n.elt, ast.Name) and n.elt.id == g2.target.id)
+            src = self.eval(g1.iter, fr)
+            if flat and isinstance(src, SymList):
+                # [x for xs in S for x in xs] is list(chain.from_iterable(S))
+                from .libstubs import flatten_symlist
+                return flatten_symlist(self, src)
+            if isinstance(src, (PList, tuple, list, range)) and (not isinstance(src, PList) or src.is_concrete()):
+                out = []
+                for v in self.iterate(src, n):
+                    f1 = Frame(parent=fr)
+                    self.assign(g1.target, v, f1)
+                    if not all(self.decide(self.eval(c, f1)) for c in g1.ifs):
+                        continue
+                    for w in self.iterate(self.eval(g2.iter, f1), n):
+                        f2 = Frame(parent=f1)
+                        self.assign(g2.target, w, f2)
+                        if not all(self.decide(self.eval(c, f2)) for c in g2.ifs):
+                            continue
+                        out.append(self.eval(n.elt, f2))
+                return PList(out)
+            raise Unsupported('nested comprehension over a symbolic sequence')
         if len(n.generators) != 1:
             raise Unsupported('nested comprehension')
         g = n.generators[0]
@@ -1010,6 +1165,16 @@ class Interp:
     def ex_YieldFrom(self, n, fr):
         v = self.eval(n.value, fr)
         sink = self.lookup('$yield', fr)
+        if isinstance(v, GenVal) and v.done is None and getattr(v, 'func', None) is not None and getattr(v.func, 'node', None) is not None \
+                and isinstance(v.func.node, (ast.FunctionDef,)):
+            # delegation to a generator function that has not started: its yields are the caller's, in order
+            v.frame.vars['$yield'] = sink
+            v.done = PList()
+            try:
+                self.exec_block(v.func.node.body, v.frame)
+            except ReturnSig:
+                pass
+            return None
         for x in self.iterate(v, n):
             sink.append(x)
         return None
@@ -1040,7 +1205,9 @@ class Interp:
         if isinstance(f, FuncVal):
             return self.call_func(f, args, kwargs, node)
         if isinstance(f, SOpt):
-            raise Unsupported('call of optional')
+            # a value that may be None: calling None is a TypeError, otherwise the call of the value
+            self.raise_if(z3.Not(f.present), 'TypeError', 'none-call', node)
+            return self.call(f.val, args, kwargs, node)
         from .libstubs import Decorator
         if isinstance(f, Decorator):
             if len(args) == 1 and not kwargs and isinstance(args[0], (FuncVal, ClassVal)):
